@@ -96,6 +96,48 @@ func (c *Ctx) nonNilValue(v ssa.Value, at ssa.Instruction, depth int) bool {
 		if fv, _ := loadedField(t); fv != nil && c.fieldNeverNil(fv, depth+1) {
 			return true
 		}
+		// a field of a record a module constructor has just built: non-nil when the constructor stores a non-nil
+		// value there in every record it returns (NewConfig(...).Me)
+		if fa, isFA := t.X.(*ssa.FieldAddr); isFA && t.Op == token.MUL && depth < 8 {
+			if call, isC := fa.X.(*ssa.Call); isC && !call.Call.IsInvoke() && call.Call.StaticCallee() != nil && c.InModuleFn(call.Call.StaticCallee()) && call.Call.StaticCallee().Blocks != nil {
+				ctor := call.Call.StaticCallee()
+				nR, all := 0, true
+				funcInstrs(ctor, func(in ssa.Instruction) {
+					rt, isR := in.(*ssa.Return)
+					if !isR || len(rt.Results) != 1 {
+						return
+					}
+					nR++
+					al, isAl := rt.Results[0].(*ssa.Alloc)
+					if !isAl {
+						all = false
+						return
+					}
+					stored := false
+					for _, ref := range *al.Referrers() {
+						f2, isF2 := ref.(*ssa.FieldAddr)
+						if !isF2 || f2.Field != fa.Field {
+							continue
+						}
+						for _, r2 := range *f2.Referrers() {
+							if st, isSt := r2.(*ssa.Store); isSt && st.Addr == ssa.Value(f2) {
+								if c.nonNilValue(st.Val, st, depth+1) && instrDominates(st, rt) {
+									stored = true
+								} else {
+									all = false
+								}
+							}
+						}
+					}
+					if !stored {
+						all = false
+					}
+				})
+				if all && nR > 0 {
+					return true
+				}
+			}
+		}
 		// a result variable filled in by a closure that a "run this under the lock" helper has called by now:
 		// the cell is assigned only inside that closure, on every path of it, with a non-nil value
 		realStores := func(al *ssa.Alloc) int {
